@@ -490,7 +490,20 @@ func master() int {
 			b, rerr := os.ReadFile(of)
 			if rerr != nil {
 				cur, _ := os.ReadFile(of + ".cur")
-				errs[w] = fmt.Sprintf("worker %d died (err=%v) while running seed %s\n%s", w, err, strings.TrimSpace(string(cur)), tail(eb.String(), 60))
+				seedStr := strings.TrimSpace(string(cur))
+				// A Go panic inside btcwallet / bbolt code on a goroutine the
+				// runner cannot recover kills the worker. That is a loud
+				// failure of the code under test: turn it into a violation
+				// whose replay file is the plan of the seed that was running.
+				if site := crashSite(eb.String()); site != "" && seedStr != "" {
+					if sd, perr := strconv.ParseUint(seedStr, 10, 64); perr == nil {
+						crashMu.Lock()
+						crashes = append(crashes, crashRec{seed: sd, site: site, trace: tail(eb.String(), 40)})
+						crashMu.Unlock()
+						return
+					}
+				}
+				errs[w] = fmt.Sprintf("worker %d died (err=%v) while running seed %s\n%s", w, err, seedStr, tail(eb.String(), 60))
 				return
 			}
 			o := &WorkerOut{}
@@ -557,6 +570,17 @@ func master() int {
 		return knownFinding{}, false
 	}
 
+	// crashed workers
+	for _, c := range crashes {
+		plan := sim.Generate(*fProp, *fTier, c.seed)
+		plan.Sim, plan.Prop, plan.Tier, plan.Seed = sim.Name(), *fProp, *fTier, c.seed
+		sig := "crash:" + c.site
+		v := Violation{Prop: *fProp, Sig: sig, Msg: "the process died with a Go panic inside the code under test while executing this plan:\n" + c.trace}
+		sigCount[sig]++
+		if _, ok := bySig[sig]; !ok {
+			bySig[sig] = ViolRec{Plan: plan, V: v}
+		}
+	}
 	sigs := make([]string, 0, len(bySig))
 	for s := range bySig {
 		sigs = append(sigs, s)
@@ -577,6 +601,30 @@ func master() int {
 	for _, s := range sigs {
 		rec := bySig[s]
 		rec.Plan.Expect = &rec.V
+		if strings.HasPrefix(s, "crash:") {
+			// cannot be minimised in-process (every execution kills the process):
+			// the replay file is the full plan; replaying it crashes the same way
+			name := fmt.Sprintf("%s-%016x-%d.json", rec.V.Prop, Mix(0, hashString(s)), rec.Plan.Seed)
+			dst := filepath.Join(*fVerif, "replays", name)
+			rec.Plan.Notes = append(rec.Plan.Notes, "replaying this plan kills the process with the recorded panic (exit status 2 and the Go trace)")
+			_ = WritePlan(dst, rec.Plan)
+			c := exec.Command(selfExe(), "-vmode=replay", "-plan="+dst)
+			var b bytes.Buffer
+			c.Stdout, c.Stderr = &b, &b
+			_ = c.Run()
+			reproduced := crashSite(b.String()) == strings.TrimPrefix(s, "crash:")
+			summ := map[string]any{"signature": s, "message": firstLine(rec.V.Msg), "occurrences": sigCount[s], "replay": dst, "replay_reproduces": reproduced}
+			if k, ok := isKnown(rec.V.Prop, s); ok {
+				fmt.Printf("KNOWN-FINDING: property=%s %s (signature %s, replay=%s)\n", rec.V.Prop, k.Text, s, dst)
+				summ["known_finding"] = true
+			} else {
+				fmt.Printf("violation detail: %s\n", rec.V.String())
+				fmt.Printf("VIOLATION property=%s replay=%s\n", rec.V.Prop, dst)
+				newViol++
+			}
+			violSumm = append(violSumm, summ)
+			continue
+		}
 		raw := filepath.Join(tmp, "raw.json")
 		_ = WritePlan(raw, rec.Plan)
 		name := fmt.Sprintf("%s-%016x-%d.json", rec.V.Prop, Mix(0, hashString(s)), rec.Plan.Seed)
@@ -703,6 +751,34 @@ func master() int {
 		return 2
 	}
 	return 0
+}
+
+type crashRec struct {
+	seed  uint64
+	site  string
+	trace string
+}
+
+var (
+	crashMu sync.Mutex
+	crashes []crashRec
+)
+
+// crashSite returns the first btcwallet / bbolt frame of a Go panic trace
+// ("" if the output is not such a trace).
+func crashSite(out string) string {
+	i := strings.Index(out, "panic: ")
+	if i < 0 {
+		i = strings.Index(out, "fatal error: ")
+	}
+	if i < 0 {
+		return ""
+	}
+	site := panicSite(out[i:])
+	if site == "harness" {
+		return ""
+	}
+	return site
 }
 
 func assumptions(sim Sim) []string {
